@@ -26,8 +26,15 @@ func (f *Frame) call(in ssa.CallInstruction, res *ssa.Call) {
 			}
 			f.ncall["@site:"+name]++
 			n := f.ncall["@site:"+name]
+			names := map[string]bool{name: true, short: true}
+			for _, ak := range f.vc.eng.closureAlias[name] {
+				names[ak] = true
+				if i := strings.Index(ak, "."); i >= 0 {
+					names[ak[i+1:]] = true
+				}
+			}
 			for _, ca := range f.spec.CallAsserts {
-				if (ca.Callee == name || ca.Callee == short) && ca.N == n {
+				if names[ca.Callee] && ca.N == n {
 					mine = append(mine, ca)
 					f.vc.matchedAsserts[ca] = true
 				}
